@@ -41,8 +41,10 @@ class Frame(object):
         return "<Frame %s len=%d>" % (TYPE_NAMES.get(self.type, self.type), self.length)
 
 
-def deframe(stream, early_type=True):
-    """RFC 4271 4.1 / 6.1 deframer.  Returns (frames, rest).  Stops at the first header
+def deframe(stream, early_type=True, strict=False):
+    """RFC 4271 4.1 / 6.1 deframer.  Returns (frames, rest).  strict=True adds the two type-specific
+    length rules of 6.1 that yabgp's session layer is expected to honour (KEEPALIVE != 19,
+    OPEN < 29).  Stops at the first header
     violation, which is returned as a Frame with .error set (it is the last frame).
     The header is judged as soon as its 19 octets are there (marker, then length, then type),
     like a router that validates the header before waiting for the body."""
@@ -62,6 +64,13 @@ def deframe(stream, early_type=True):
             # bad type is detectable from the header alone (early_type) -- a receiver may equally
             # well wait for the whole frame before it looks at the type
             frames.append(Frame(mtype, length, b"", stream[off:], ("type", 3), off))
+            return frames, b""
+        if strict and ((mtype == KEEPALIVE and length != 19) or (mtype == OPEN and length < 29)) \
+                and (early_type or n - off >= length):
+            # RFC 4271 6.1: a KEEPALIVE whose length is not 19 / an OPEN shorter than the minimum OPEN
+            # is a Bad Message Length too (detectable from the header alone; with early_type=False the
+            # receiver is assumed to look at it only once the whole frame is there)
+            frames.append(Frame(mtype, length, b"", stream[off:], ("length", 2), off))
             return frames, b""
         if n - off < length:
             break
